@@ -798,6 +798,15 @@ def cli_cases(g, group, thorough):
         for which in ("0x21", "0x10"):
             for ah in range(256):
                 out.append(("-", f"start:\nmov bx, 0x300\nmov byte [bx], 4\nmov dx, bx\nmov bp, bx\nmov cx, 2\nmov al, 65\nmov ah, {ah}\nint {which}\nprint reg\nmov bx, 7\nprint reg\n", "ab\ncd\n"))
+        # counts and lengths at the edges of the 16-bit / 8-bit ranges; long lines followed by further reads
+        for cx, dl in ((0xFFFF, 5), (0xFF01, 255), (0xFFFF, 255), (0xFF00, 255), (0x8000, 0), (65535, 0)):
+            out.append(("-", f"start:\nmov ax, 0\nmov es, ax\nmov bp, 0x40\nmov byte [0x40], 65\nmov cx, {cx}\nmov dl, {dl}\nmov ah, 0x13\nint 0x10\nprint reg\n", ""))
+            out.append(("-", f"start:\nmov cx, {cx}\nmov al, 66\nmov ah, 0x0A\nint 0x10\nprint reg\n", ""))
+        for n1 in (255, 256, 257, 258, 300, 600, 5000):
+            for cap in (3, 255):
+                long_line = "".join(chr(65 + k % 26) for k in range(n1))
+                out.append(("-", f"start:\nmov bx, 0x300\nmov byte [bx], {cap}\nmov dx, bx\nmov ah, 0x0A\nint 0x21\nmov bx, 0x500\nmov byte [bx], 10\nmov dx, bx\nmov ah, 0x0A\nint 0x21\n"
+                            "mov ah, 1\nint 0x21\nprint reg\nprint mem 0x300 : 8\nprint mem 0x500 : 14\n", long_line + "\nsecond\nthird\n"))
         # input lines with white space at their ends (only the line terminator is not part of the line)
         for line in ["ab  \n", "x\t\n", "   \n", " a \n", "ab \r\n", "ab\r\r\n", "ab\n\n", "q \x0c\n"]:
             for cap in (1, 3, 5, 255):
